@@ -382,6 +382,7 @@ def opWalk (kind : String) (fields : List String) : String :=
     | none => "bad-op"
     | some bs => match Walkers.parseBMP bs with
       | none => "panic" | some none => "err" | some (some out) => "ok " ++ hexOfBytes out
+  | "wfq", [h] => hexOfBytes (Walkers.fqdnArg ((unhexBytes h).getD []))
   | "wna", [o] =>
     match Walkers.isNameAttribute (if o == "-" then [] else parseOid o) with
     | .val true => "1" | .val false => "0" | .panic => "panic"
@@ -482,6 +483,7 @@ def step (line : String) : String :=
   | "wcc" :: rest => opWalk "wcc" rest
   | "wbmp" :: rest => opWalk "wbmp" rest
   | "wna" :: rest => opWalk "wna" rest
+  | "wfq" :: rest => opWalk "wfq" rest
   | _ => "bad-op"
 
 partial def loop (h : IO.FS.Stream) (out : IO.FS.Stream) : IO Unit := do
